@@ -1,6 +1,6 @@
 (* Byte strings: Go strings are byte sequences.  Style rule: no [match] on byte
    constructors anywhere; bytes are tested with [beq] only. *)
-From Coq Require Export List Strings.Byte Strings.String Bool Lia NArith ZArith.
+From Coq Require Export Strings.Byte Strings.String Bool Lia NArith ZArith List.
 Export ListNotations.
 Definition bytes := list byte.
 Definition bs (s : string) : bytes := list_byte_of_string s.
